@@ -70,6 +70,10 @@ enum Case {
     RewindAbsent,
     /// PATCH /sync/account with a Diff for the log
     SyncDiff { cp: Cp },
+    /// PUT /sync/account (forced update) replacing the log by its first
+    /// n-drop records: afterwards the agreed base is the replaced log - a
+    /// patch on the old head is refused, a patch on the new head applies
+    Forced { drop: usize },
 }
 
 #[derive(Clone, Debug, Serialize, Deserialize)]
@@ -107,6 +111,11 @@ fn items(tier: Tier) -> Vec<Item> {
                 }
             }
             v.push(Item { log: l, case: Case::RewindAbsent, server_db: db });
+            if matches!(l, LogT::Folder | LogT::Identity | LogT::Device) {
+                for drop in [1usize, 2] {
+                    v.push(Item { log: l, case: Case::Forced { drop }, server_db: db });
+                }
+            }
         }
     }
     v
@@ -356,6 +365,31 @@ async fn run_item(t: &Template, it: &Item, work: &Path) -> Value {
                 };
                 expected_log = s.clone();
             }
+            Case::Forced { drop } => {
+                let base: Vec<EventRecord> = s[..n - *drop].to_vec();
+                let proof = tree_of(&base).head().unwrap();
+                let last_commit = Some(CommitHash(base[base.len() - 1].commit().0));
+                expect_success = true;
+                request_desc = format!("forced update replacing the log by its first n-{} records", drop);
+                let mut us = sos_sync::UpdateSet::default();
+                match it.log {
+                    LogT::Folder => {
+                        us.folders.insert(t.default_folder.parse().unwrap(), FolderDiff { patch: Patch::new(base.clone()), checkpoint: proof, last_commit });
+                    }
+                    LogT::Identity => {
+                        us.identity = Some(FolderDiff { patch: Patch::new(base.clone()), checkpoint: proof, last_commit });
+                    }
+                    LogT::Device => {
+                        us.device = Some(sos_core::events::patch::DeviceDiff { patch: Patch::new(base.clone()), checkpoint: proof, last_commit });
+                    }
+                    _ => return Err(anyhow!("forced update is not driven for this log")),
+                }
+                response = match client.update_account(us).await {
+                    Ok(_) => Ok("Success".into()),
+                    Err(e) => Err(e.to_string()),
+                };
+                expected_log = base;
+            }
             Case::SyncDiff { cp } => {
                 let proof = mk_proof(cp, &s);
                 expect_success = *cp == Cp::Head;
@@ -404,6 +438,7 @@ async fn run_item(t: &Template, it: &Item, work: &Path) -> Value {
             Case::RewindAbsent => "rewind_absent".into(),
             Case::RewindDropping { .. } => "rewind_dropping_unmerged".into(),
             Case::SyncDiff { cp } => format!("sync_diff_{:?}", cp).to_lowercase(),
+            Case::Forced { drop } => format!("forced_update_dropping_{}", drop),
         };
         let same = |a: &[EventRecord], b: &[EventRecord]| -> bool {
             a.len() == b.len() && a.iter().zip(b.iter()).all(|(x, y)| x.commit() == y.commit() && x.time() == y.time() && x.event_bytes() == y.event_bytes())
@@ -466,6 +501,25 @@ async fn run_item(t: &Template, it: &Item, work: &Path) -> Value {
             want2.push(y);
             if !ok || !same(&got2, &want2) {
                 fails.push(json!({"sig": format!("server:{}:honest_patch_refused_after_refusal:{}", casek, lname), "what": format!("after the refused {} a patch on the true head of the log is not accepted ({}) or not appended", request_desc, match &r { Ok(_) => "Conflict".to_string(), Err(e) => e.to_string() })}));
+            }
+        }
+        // after an accepted forced update the agreed base is the replaced
+        // log, in storage and in the commit tree the server holds in memory
+        if matches!(it.case, Case::Forced { .. }) && fails.is_empty() {
+            let y = mk_event(it.log, t, 101).await;
+            let r = client.patch(PatchRequest { log_type: log_type(it.log, t), commit: None, proof: tree_of(&s).head().unwrap(), patch: vec![y.clone()] }).await;
+            if matches!(&r, Ok(r) if matches!(r.checked_patch, CheckedPatch::Success(_))) {
+                fails.push(json!({"sig": format!("server:{}:patch_on_replaced_head_accepted:{}", casek, lname), "what": format!("after {} a patch whose checkpoint is the head of the log as it was BEFORE the forced update is accepted", request_desc)}));
+            } else {
+                let r = client.patch(PatchRequest { log_type: log_type(it.log, t), commit: None, proof: tree_of(&expected_log).head().unwrap(), patch: vec![y.clone()] }).await;
+                let ok = matches!(&r, Ok(r) if matches!(r.checked_patch, CheckedPatch::Success(_)));
+                let after2 = server_logs(&server, &account_id).await?;
+                let got2 = after2.get(&name).cloned().unwrap_or_default();
+                let mut want2 = expected_log.clone();
+                want2.push(y);
+                if !ok || !same(&got2, &want2) {
+                    fails.push(json!({"sig": format!("server:{}:honest_patch_refused_after_forced_update:{}", casek, lname), "what": format!("after {} a patch on the head of the replaced log is not accepted ({}) or not appended", request_desc, match &r { Ok(_) => "Conflict".to_string(), Err(e) => e.to_string() })}));
+                }
             }
         }
         device.close().await;
